@@ -48,6 +48,12 @@ pub enum FileSt {
     Truncate(u32),
     /// XOR the byte at `pos mod len` with `mask` (mask 0 is treated as 1).
     BitFlip(u32, u8),
+    /// The file is moved out of the directory (kept aside with its modification time);
+    /// nothing happens when it is absent.
+    MoveAside,
+    /// The file moved aside comes back, bytes and modification time as they were (`mv`,
+    /// `cp -p`, a sync tool); nothing happens when none is aside or the name is taken.
+    MoveBack,
 }
 
 #[derive(Clone, Copy, PartialEq, Eq, Debug, Serialize, Deserialize)]
